@@ -188,6 +188,7 @@ type State struct {
 	symNe   map[int][]constant.Value
 	depth   int
 	stack   []*types.Func
+	symSet  map[int][]constant.Value
 	held    []string // rule-specific (locks)
 	notes   []string
 }
@@ -237,6 +238,12 @@ func (s *State) clone() *State {
 	for k, v := range s.symNe {
 		n.symNe[k] = v
 	}
+	if s.symSet != nil {
+		n.symSet = make(map[int][]constant.Value, len(s.symSet))
+		for k, v := range s.symSet {
+			n.symSet[k] = v
+		}
+	}
 	n.stack = append([]*types.Func(nil), s.stack...)
 	n.held = append([]string(nil), s.held...)
 	n.notes = append([]string(nil), s.notes...)
@@ -244,6 +251,25 @@ func (s *State) clone() *State {
 }
 
 func (s *State) emit(sym *Sym) { s.trace = append(s.trace, sym) }
+
+// symAmong constrains a symbol to a set of constants.
+func (s *State) symAmong(id int, set []constant.Value) {
+	if s.symSet == nil {
+		s.symSet = map[int][]constant.Value{}
+	}
+	if prev, ok := s.symSet[id]; ok {
+		var out []constant.Value
+		for _, x := range prev {
+			for _, y := range set {
+				if constant.Compare(x, token.EQL, y) {
+					out = append(out, x)
+				}
+			}
+		}
+		set = out
+	}
+	s.symSet[id] = set
+}
 
 // PathOut is the outcome of one path through a function (or loop body).
 type PathOut struct {
@@ -287,12 +313,62 @@ type Interp struct {
 	FieldStores map[*types.Var]bool
 	NoInline    func(f *types.Func) bool
 	pureGetter  map[*types.Func]int
+	purePred    map[*types.Func]bool
 	Trace       bool
+	Entry       string
+	loopForms   []*LoopForm
+}
+
+// Form is a byte-size expression: constant + symbolic terms + per-iteration sums of loops.
+type Form struct {
+	C     int64
+	Terms map[string]int64
+	Loops []*LoopForm
+}
+
+type LoopForm struct {
+	Key  string
+	Alts []*FormAlt
+}
+
+type FormAlt struct {
+	St *State
+	F  *Form
+}
+
+func (in *Interp) formFromLin(l *Lin) *Form {
+	f := &Form{C: l.C, Terms: map[string]int64{}}
+	for t, c := range l.Terms {
+		var id int
+		if n, _ := fmt.Sscanf(t, "Σ#%d", &id); n == 1 && id < len(in.loopForms) {
+			for i := int64(0); i < c; i++ {
+				f.Loops = append(f.Loops, in.loopForms[id])
+			}
+			continue
+		}
+		f.Terms[t] = c
+	}
+	return f
+}
+
+func (f *Form) String() string {
+	l := &Lin{C: f.C, Terms: f.Terms}
+	s := l.String()
+	for _, lp := range f.Loops {
+		var alts []string
+		for _, a := range lp.Alts {
+			alts = append(alts, a.F.String())
+		}
+		sort.Strings(alts)
+		alts = dedupStrings(alts)
+		s += " + Σ[" + lp.Key + "]{" + strings.Join(alts, " | ") + "}"
+	}
+	return s
 }
 
 func newInterp(p *Program, h Hooks) *Interp {
 	return &Interp{P: p, Hooks: h, MaxPaths: 200000, MaxDepth: 14,
-		FieldReads: map[*types.Var]bool{}, FieldStores: map[*types.Var]bool{}, pureGetter: map[*types.Func]int{}}
+		FieldReads: map[*types.Var]bool{}, FieldStores: map[*types.Var]bool{}, pureGetter: map[*types.Func]int{}, purePred: map[*types.Func]bool{}}
 }
 
 type frame struct {
@@ -326,6 +402,7 @@ func (in *Interp) RunFunc(fn *types.Func, recv *Val, args []Val, st *State) []*P
 	if st == nil {
 		st = newState()
 	}
+	in.Entry = fn.FullName()
 	var outs []*PathOut
 	in.inline(fn, recv, args, st, nil, token.NoPos, func(s *State, vals []Val) {
 		outs = append(outs, &PathOut{St: s, Ret: vals, Ctl: "return"})
@@ -358,7 +435,7 @@ func isErrorType(t types.Type) bool {
 func (in *Interp) countPath() {
 	in.paths++
 	if in.paths > in.MaxPaths {
-		fatalf("absint: path bound %d exceeded", in.MaxPaths)
+		fatalf("absint: path bound %d exceeded in %s", in.MaxPaths, in.Entry)
 	}
 }
 
@@ -372,7 +449,11 @@ func (in *Interp) inline(fn *types.Func, recv *Val, args []Val, st *State, calle
 	for _, f := range st.stack {
 		if f == fn.Origin() {
 			st.emit(&Sym{Kind: "rec", Name: fn.FullName(), Pos: pos, Args: args})
-			k(st, in.assumedResults(fn.Type().(*types.Signature)))
+			res := in.assumedResults(fn.Type().(*types.Signature))
+			if len(res) > 0 && isIntType(fn.Type().(*types.Signature).Results().At(0).Type()) {
+				res[0] = Val{K: KLin, Lin: linTerm("rec:" + recStem(fn.FullName()) + "(" + firstArg(args) + ")")}
+			}
+			k(st, res)
 			return
 		}
 	}
@@ -1206,8 +1287,20 @@ func (in *Interp) summarizeLoop(node ast.Node, body *ast.BlockStmt, post ast.Stm
 			pre.env[o] = unknown
 		}
 	}
+	// numeric accumulators (length += ...): track the per-iteration delta symbolically
+	accVars := map[types.Object]string{}
+	for o := range assigned {
+		if v, ok := st.env[o]; ok {
+			if _, isLin := asLin(in.resolve(v, st)); isLin {
+				accVars[o] = fmt.Sprintf("@acc:%p", o)
+			}
+		}
+	}
 	bodySt := pre.clone()
 	bodySt.trace = nil
+	for o, marker := range accVars {
+		bodySt.env[o] = Val{K: KLin, Lin: linTerm(marker)}
+	}
 	if rs != nil {
 		if rs.Key != nil {
 			kv := unknown
@@ -1295,8 +1388,59 @@ func (in *Interp) summarizeLoop(node ast.Node, body *ast.BlockStmt, post ast.Stm
 		}
 		after.heap[id][k[1].(string)] = unknown
 	}
+	// accumulators: pre + Σ[key]{delta}
+	for o, marker := range accVars {
+		lf := &LoopForm{Key: key}
+		okAll := true
+		nonZero := false
+		for _, b := range loop.Body {
+			if b.Ctl != "next" {
+				continue
+			}
+			v, isLin := asLin(in.resolve(b.St.env[o], b.St))
+			if !isLin || v.Terms[marker] != 1 {
+				okAll = false
+				break
+			}
+			d := v.add(linTerm(marker), -1)
+			if d.C != 0 || len(d.Terms) > 0 {
+				nonZero = true
+			}
+			lf.Alts = append(lf.Alts, &FormAlt{St: b.St, F: in.formFromLin(d)})
+		}
+		preLin, _ := asLin(in.resolve(st.env[o], st))
+		if okAll && preLin != nil {
+			if !nonZero {
+				after.env[o] = Val{K: KLin, Lin: preLin}
+			} else {
+				in.loopForms = append(in.loopForms, lf)
+				after.env[o] = Val{K: KLin, Lin: preLin.add(linTerm(fmt.Sprintf("Σ#%d", len(in.loopForms)-1)), 1)}
+			}
+		} else {
+			after.env[o] = unknown
+		}
+	}
 	after.emit(loop)
 	next(after)
+}
+
+// pathCondKey renders the atoms a loop-body path assumed beyond the loop entry (so that
+// alternatives inside a loop are distinguishable).
+func pathCondKey(st *State, from int) string {
+	if from >= len(st.atomLog) {
+		return ""
+	}
+	return "(" + strings.Join(st.atomLog[from:], ",") + ")"
+}
+
+func dedupStrings(a []string) []string {
+	var out []string
+	for i, s := range a {
+		if i == 0 || s != a[i-1] {
+			out = append(out, s)
+		}
+	}
+	return out
 }
 
 func snapshotHeap(st *State) map[int]map[string]Val {
@@ -1475,10 +1619,19 @@ func (in *Interp) resolve(v Val, st *State) Val {
 		}
 	case KExpr:
 		if c, ok := st.refine[v.Key]; ok {
-			return Val{K: KConst, C: c, T: v.T}
+			return Val{K: KConst, C: c, T: v.T, Key: v.Key}
 		}
 	}
 	return v
+}
+
+// nameOf: the canonical name of a value for symbolic terms: the expression key when the value
+// came from one (even if a later test pinned it to a constant).
+func nameOf(v Val) string {
+	if v.Key != "" && v.Key != "&mask" && v.Key != "|mask" && v.Key != "&^mask" {
+		return v.Key
+	}
+	return v.String()
 }
 
 func isZeroConst(v Val) bool {
@@ -1628,6 +1781,35 @@ func (in *Interp) compare(op token.Token, l, r Val, st *State) Tri {
 				for _, x := range st.symNe[id] {
 					if constant.Compare(x, token.EQL, r.C) {
 						return Tri{Known: true, Val: op == token.NEQ}
+					}
+				}
+				if set, ok := st.symSet[id]; ok {
+					// remaining candidates
+					var rest []constant.Value
+					for _, x := range set {
+						excluded := false
+						for _, y := range st.symNe[id] {
+							if constant.Compare(x, token.EQL, y) {
+								excluded = true
+							}
+						}
+						if !excluded {
+							rest = append(rest, x)
+						}
+					}
+					in_ := false
+					for _, x := range rest {
+						if constant.Compare(x, token.EQL, r.C) {
+							in_ = true
+						}
+					}
+					if !in_ {
+						return Tri{Known: true, Val: op == token.NEQ}
+					}
+					if len(rest) == 1 {
+						c1 := r.C
+						st.symEq[id] = c1
+						return Tri{Known: true, Val: op == token.EQL}
 					}
 				}
 				c := r.C
@@ -2026,7 +2208,7 @@ func wrapInt(c constant.Value, t types.Type) constant.Value {
 	}
 	mod := constant.Shift(constant.MakeInt64(1), token.SHL, uint(bits))
 	// r = c mod 2^bits (non-negative)
-	q := constant.BinaryOp(c, token.QUO, mod)
+	q := constant.BinaryOp(c, token.QUO_ASSIGN, mod) // truncated integer division
 	r := constant.BinaryOp(c, token.SUB, constant.BinaryOp(q, token.MUL, mod))
 	if constant.Sign(r) < 0 {
 		r = constant.BinaryOp(r, token.ADD, mod)
